@@ -3,7 +3,7 @@ fixed point 2^-12."""
 import math, torch
 import torchphysics as tp
 from torchphysics.models.FNO import _FourierLayer
-from .common import main, watched
+from .common import main, watched, pick
 
 SC = 4096
 
@@ -29,11 +29,11 @@ def run_one(s):
             # length <= fourier_layers is read as per-layer 1-D modes), otherwise the list-of-lists form is used
             layers, fm = 2, modes
             if d > 1:
-                layers, fm = (3, modes) if (s["tid"] // 2) % 2 == 0 else (2, [modes, modes])
+                layers, fm = (3, modes) if pick(s["tid"], 2, 1) == 0 else (2, [modes, modes])
             net = tp.models.FNO(X, Y, fourier_layers=layers, hidden_channels=3, fourier_modes=fm,
                                 skip_connections=s["skip"], linear_connections=s["lin"])
             call = lambda u: net(tp.spaces.Points(u, X)).as_tensor
-            if ch >= 2 and (s["tid"] // 4) % 2 == 1:        # (generated scenarios alternate layer / fno: tid parity is the kind)
+            if ch >= 2 and pick(s["tid"], 2, 2) == 1:
                 # an input space of SEVERAL variables, and the caller's Points hold them in the other order: the model
                 # sorts the columns by name; the caller's tensor is left alone and the result is the one of the sorted call
                 A, C = tp.spaces.Rn("a", 1), tp.spaces.Rn("c", ch - 1)
